@@ -193,6 +193,10 @@ class C07(LinksMixin, Prop):
                 # pre-existing loop-carried state (stale yields / inits: class of the known findings DC07a, DC07b)
                 src = al.prethread_loops(src, random.Random(rng.getrandbits(32)))
             yield {"kind": "links", "src": src, "xseed": rng.getrandbits(32)}
+        for i in range(40 if tier == "quick" else 600):
+            # loops that already carry a state they only pass through (no setup of that accelerator left in the body)
+            src = al.passthrough_program(random.Random(rng.getrandbits(48)))
+            yield {"kind": "links" if i % 2 else "trace", "src": src, "xseed": rng.getrandbits(32)}
 
     def impl(self, case):
         if case.get("kind") == "links":
